@@ -8,6 +8,7 @@ import (
 	"reflect"
 	"regexp"
 	"sort"
+	"strconv"
 	"strings"
 	"time"
 
@@ -670,6 +671,90 @@ type c15EsdShape struct {
 	CD     c15PtrDur `json:"cd"`
 	Nested int       `json:"nested"`
 	Eds    int       `json:"eds"`
+	Tree   c15Tree   `json:"tree"`
+}
+
+// c15Tree is the spec's size-and-shape dimension of an EntitiesDescriptor value: a chain of
+// Chain elements nested in one another (the root first), the last of which has Fan[0] group
+// children, each of them Fan[1], ...; every deepest group has Leaves EntityDescriptor children.
+type c15Tree struct {
+	Chain  int   `json:"chain"`
+	Fan    []int `json:"fan"`
+	Leaves int   `json:"leaves"`
+}
+
+// Trivial: the root alone (the classic shapes).
+func (t c15Tree) Trivial() bool { return t.Chain <= 1 && len(t.Fan) == 0 && t.Leaves == 0 }
+
+func (t c15Tree) String() string {
+	f := make([]string, len(t.Fan))
+	for i, n := range t.Fan {
+		f[i] = strconv.Itoa(n)
+	}
+	return fmt.Sprintf("chain%d/fan[%s]/leaves%d", t.Chain, strings.Join(f, "x"), t.Leaves)
+}
+
+// c15CountESD measures a concrete value independently of the spec: the number of
+// EntitiesDescriptor elements, the length of the longest chain of them inside one another,
+// and the number of EntityDescriptor elements.
+func c15CountESD(es *saml.EntitiesDescriptor) (groups, depth, entities int) {
+	// iterative (a chain may be deeper than is comfortable for a recursive walk of a slice of values)
+	type item struct {
+		e *saml.EntitiesDescriptor
+		d int
+	}
+	stack := []item{{es, 1}}
+	for len(stack) > 0 {
+		it := stack[len(stack)-1]
+		stack = stack[:len(stack)-1]
+		groups++
+		if it.d > depth {
+			depth = it.d
+		}
+		entities += len(it.e.EntityDescriptors)
+		for i := range it.e.EntitiesDescriptors {
+			stack = append(stack, item{&it.e.EntitiesDescriptors[i], it.d + 1})
+		}
+	}
+	return
+}
+
+// c15GrowTree hangs the tree t below root (root is the first element of the chain).
+func c15GrowTree(root *saml.EntitiesDescriptor, t c15Tree) {
+	leaf := func(n int) saml.EntityDescriptor {
+		return saml.EntityDescriptor{
+			EntityID: fmt.Sprintf("https://sp%d.example.com/metadata", n),
+			SPSSODescriptors: []saml.SPSSODescriptor{{
+				SSODescriptor:             saml.SSODescriptor{RoleDescriptor: saml.RoleDescriptor{ProtocolSupportEnumeration: "urn:oasis:names:tc:SAML:2.0:protocol"}},
+				AssertionConsumerServices: []saml.IndexedEndpoint{{Binding: saml.HTTPPostBinding, Location: fmt.Sprintf("https://sp%d.example.com/acs", n), Index: 1}},
+			}},
+		}
+	}
+	cur := root
+	for i := 1; i < t.Chain; i++ {
+		cur.EntitiesDescriptors = []saml.EntitiesDescriptor{{}}
+		cur = &cur.EntitiesDescriptors[0]
+	}
+	n := 0
+	var fan func(e *saml.EntitiesDescriptor, level int)
+	fan = func(e *saml.EntitiesDescriptor, level int) {
+		if level >= len(t.Fan) {
+			for k := 0; k < t.Leaves; k++ {
+				n++
+				e.EntityDescriptors = append(e.EntityDescriptors, leaf(n))
+			}
+			return
+		}
+		e.EntitiesDescriptors = make([]saml.EntitiesDescriptor, t.Fan[level])
+		for k := range e.EntitiesDescriptors {
+			if level == 0 && k%7 == 0 {
+				nm := fmt.Sprintf("group-%d", k) // some groups are named, most are bare
+				e.EntitiesDescriptors[k].Name = &nm
+			}
+			fan(&e.EntitiesDescriptors[k], level+1)
+		}
+	}
+	fan(cur, 0)
 }
 
 func (s c15EsdShape) String() string {
@@ -684,7 +769,11 @@ func (s c15EsdShape) String() string {
 		d, _ := s.CD.V.Int64()
 		cd = time.Duration(d).String()
 	}
-	return fmt.Sprintf("id=%t:name=%t:vu=%s:cd=%s:nested=%d:eds=%d", s.ID, s.Name, vu, cd, s.Nested, s.Eds)
+	name := fmt.Sprintf("id=%t:name=%t:vu=%s:cd=%s:nested=%d:eds=%d", s.ID, s.Name, vu, cd, s.Nested, s.Eds)
+	if !s.Tree.Trivial() {
+		name += ":tree=" + s.Tree.String()
+	}
+	return name
 }
 
 func c15BuildESD(s c15EsdShape, rng *rand.Rand) *saml.EntitiesDescriptor {
@@ -725,6 +814,9 @@ func c15BuildESD(s c15EsdShape, rng *rand.Rand) *saml.EntitiesDescriptor {
 	}
 	for i := 0; i < s.Eds; i++ {
 		es.EntityDescriptors = append(es.EntityDescriptors, simple(i))
+	}
+	if !s.Tree.Trivial() {
+		c15GrowTree(es, s.Tree)
 	}
 	return es
 }
